@@ -409,10 +409,14 @@ func (appDB *AppDB) SetEmission(emission *big.Int) {
 	defer appDB.mu.Unlock()
 
 	appDB.emission = emission
+	appDB.isDirtyEmission = true
 }
 
 func (appDB *AppDB) SaveEmission() {
-	if appDB.isDirtyPrice == false {
+	appDB.mu.Lock()
+	defer appDB.mu.Unlock()
+
+	if appDB.isDirtyEmission == false {
 		return
 	}
 
@@ -420,6 +424,7 @@ func (appDB *AppDB) SaveEmission() {
 	if err := appDB.db.Set([]byte(emissionPath), appDB.emission.Bytes()); err != nil {
 		panic(err)
 	}
+	appDB.isDirtyEmission = false
 }
 
 func (appDB *AppDB) Emission() (emission *big.Int) {
